@@ -11,11 +11,11 @@ CONSTANTS
   Prog <- MC_Prog
   KeyRank <- MC_KeyRank
   Root <- MC_Root
-  CandU <- MC_CandU_life
-  AbortSets <- MC_AbortSets_one
+  CandU <- MC_CandU_mix
+  AbortSets <- MC_AbortSets_two
   MaxTicks = 3
   MaxCands = 2
-  MaxCandsA = 1
+  MaxCandsA = 2
   MaxAborts = 1
   MaxJumps = 0
   PreNames = {"hub"}
